@@ -53,6 +53,7 @@ def generate(seed: int, tier: str, idx: int) -> dict:
         if fr.get("split"):
             fr["split"][0] += 1
         fr["time_units"] = "epoch"
+        fr.pop("time_units_per_file", None)
     return sc
 
 
